@@ -8,6 +8,7 @@ import Drive.Decode
 import Drive.Dma
 import Drive.Alu
 import Drive.Regs
+import Drive.Asm
 /-!
 Line-protocol driver for the executable model: one request per line on stdin, one response per
 line on stdout.  `<unit> <op> <hex args…>`.
@@ -23,6 +24,7 @@ structure St where
   icu : Icu := {}
   dma : DmaSt := {}
   regs : RegsSt := default
+  asm : AsmSt := {}
 
 def stepLine (st : St) (line : String) : St × String :=
   match (line.trimAscii.toString.splitOn " ").filter (· ≠ "") with
@@ -36,6 +38,7 @@ def stepLine (st : St) (line : String) : St × String :=
   | "dma" :: args => let (d, out) := dmaStep st.dma args; ({ st with dma := d }, out)
   | "alu" :: args => (st, aluStep args)
   | "regs" :: args => let (r, out) := regsStep st.regs args; ({ st with regs := r }, out)
+  | "asm" :: args => let (a, out) := asmStep st.asm args; ({ st with asm := a }, out)
   | [] => (st, "")
   | _ => (st, "bad-unit")
 
